@@ -368,6 +368,28 @@ def check(pid, tier):
             core.log(json.dumps(out))
         if deferred and not violations:
             raise deferred[0]
+    if pid == "C12":
+        # block level: a disk hit comes back Old exactly if its block is marked for imminent reclaim, and a block
+        # that was reclaimed and refilled is not (Trace_DiskImage tag C12.age_of_disk_hit_differs_from_block_probation)
+        from . import diskcheck
+        rng = random.Random(core.seed() * 13 + 12)
+        ws = []
+        for _ in range(8 if tier == "thorough" else 3):
+            ops = [{"a": "ins", "k": rng.choice(diskcheck.KEYS)} for _ in range(rng.randint(6, 14))]
+            ops += [{"a": "wait"}, {"a": "q"}, {"a": "probation"}, {"a": "q"}]
+            for i in range(60):
+                ops.append({"a": "ins", "k": rng.choice(diskcheck.KEYS)})
+                if i % 4 == 3:
+                    ops += [{"a": "wait"}, {"a": "q"}]
+            ws.append({"ops": ops})
+        out, vs, sample = diskcheck.run_profile("C12", os.path.join(base, "probation-reclaim"), "probation-reclaim", 8, 4, 0, False,
+                                                ws, "NoViolation_C12", "", {"flushers": 1, "reclaimers": 1, "clean_threshold": 1})
+        out["engine"] = "disk"
+        for v in vs:
+            v["engine"] = "disk"
+        results.append(out)
+        violations += vs
+        core.log(json.dumps(out))
     return memcheck.finish(pid, tier, t0, results, violations, samples, rule=(
         "one driver script per edge of the reachable graph of each bounded MC_Hybrid model (insert with placement "
         "advice, remove, get, get_or_fetch, evict_all, flush hold/release, device-write gate, close, reopen), executed "
@@ -387,6 +409,9 @@ def replay(pid, path):
     core.build_harness()
     with open(path) as f:
         v = json.load(f)["violation"]
+    if v.get("engine") == "disk":
+        from . import diskcheck
+        return diskcheck.replay(pid, path)
     allp = [x for t in ("quick", "thorough") for grp in profiles_for(pid, t) for x in grp]
     p = next((x for x in allp if x["name"] == v["profile"]), None)
     if p is None:
